@@ -114,6 +114,15 @@ CHECKS = {
             "declaration. The real parse_header runs over BytesIO/codec models; returned fields and text must equal what was assembled.",
             "Trusted: z3; models of BytesIO, ascii/latin_1/cp1252/utf_8 codecs (cp1252 table read from the real codec), regex (validated per path).",
             "DESIGN.md section 3 C05", ""),
+    "C06": (True,
+            "The whole request path is executed symbolically: OFXClient.__init__, request_statements/accounts/tax1099/_request_profile, signon, "
+            "the five *trnrq builders, wrap_stmtrq dispatch, sort/groupby, serialize, make_header, indent, tostring_unclosed_elements; the bytes "
+            "are read back by the library's own parse_header/TreeBuilder/from_etree (also symbolic) and compared with what was asked: header kind and "
+            "version, one sign-on with the supplied (symbolic, full printable range) credentials and identity fields, CLIENTUID rule at 103, one "
+            "wrapper per request with identifiers/type/dates/flags under the right message set in request order, distinct transaction ids.",
+            "Trusted: z3; the read-back path (its fidelity is C01/C02/C03); uuid4 and the clock run natively. Dates with arbitrary offsets are "
+            "symbolic only in the thorough tier (quick uses three concrete zoned instants and relies on C09's writer result).",
+            "DESIGN.md section 3 C06", ""),
 }
 
 NOT_YET = {
